@@ -329,7 +329,7 @@ class Ctx:
         else:
             self.violations.append(m)
 
-    def finish(self):
+    def finish(self, write_evidence=True):
         wall = time.time() - self.t0
         for tag, ms in self.known.items():
             f = self.findings[tag]
@@ -337,7 +337,7 @@ class Ctx:
                 % (self.pid, f["what"], tag, len(ms), brief(ms[0])))
         paths = []
         for i, v in enumerate(self.violations[:5]):
-            path = os.path.join(self.work, "violation-%d.json" % (i + 1))
+            path = os.path.join(self.work, ("violation-%d.json" if write_evidence else "replayed-violation-%d.json") % (i + 1))
             v2 = dict(v, property=self.pid, seed=self.seed, tier=self.tier)
             with open(path, "w") as f:
                 json.dump(v2, f, indent=1)
@@ -354,9 +354,10 @@ class Ctx:
         ev = {"property_id": self.pid, "tier": self.tier, "seed": self.seed,
               "level": "model_checking", "coverage": cov, "assumptions": self.assumptions,
               "wall_s": round(wall, 1), "violations": len(self.violations)}
-        os.makedirs(os.path.join(VERIF, "evidence"), exist_ok=True)
-        with open(os.path.join(VERIF, "evidence", self.pid + ".json"), "w") as f:
-            json.dump(ev, f, indent=1)
+        if write_evidence:
+            os.makedirs(os.path.join(VERIF, "evidence"), exist_ok=True)
+            with open(os.path.join(VERIF, "evidence", self.pid + ".json"), "w") as f:
+                json.dump(ev, f, indent=1)
         if self.violations:
             for v, path in zip(self.violations, paths):
                 log("VIOLATION property=%s replay=%s" % (self.pid, path))
